@@ -52,6 +52,11 @@ NA = {
 
 # id -> (category, text, note, technique, design_ref)
 CLAIMED = {
+ "C09": ("exploration",
+         "Interleavings of cursors (partially consumed calls of dynamic predicates with unbound / bound / partially bound first arguments, calls through a rule body into a second dynamic predicate, clause/2, re-entrant retract/1, once/1, \\+) and writers (assertz, asserta, rule assertion, retract once, retractall, abolish, throw) are drawn from the seed and realised on one machine as a conjunction `op1,...,opn,fail` whose choice points are resumed LIFO; every cursor answer is logged by side effect. The log, the final database read back through clause/2 and through fresh calls must equal a reference interpreter over an MVCC list model (clause = (birth, death); a call opened at generation g sees birth <= g < death in list order; asserta front / assertz back; retract removes the first visible match and is re-entrant over its own snapshot). One run in four injects an interrupt at a seeded instruction of the history (crash point): then the log must be a prefix of the model's log and the database one of the states the model passes through at that log length. Histories that leave what the statement fixes (a modified clause/2 cursor, a re-entrant retract meeting a clause someone else removed) are only checked for crashes. Seeded sampling of an open space of histories.",
+         "Trusts the MVCC reference interpreter (validated: 0 disagreements on ~20 000 non-hazard histories per quick run after the three repairs) and the LIFO realisation of interleavings (a cursor can only be resumed after everything opened later is exhausted). Histories that touch an index bucket under an open indexed cursor, or asserta into a bucket after a retraction in it, are keyed apart because two recorded defects live there (known_findings.json).",
+         "deterministic simulation: seeded interleavings of database cursors and writers (LIFO-realised) with an injected interrupt as crash point; MVCC reference model as history oracle",
+         "DESIGN.md §3 C09"),
  "C52": ("exploration",
          "Seeded histories of random/1, maybe/0 and random_integer/3 calls after set_random(seed(S)) with S over the whole integer range; each history runs as one conjunction, again on the same machine, on a second machine with another history, and split over separate queries with unrelated (interrupted) work in between. Per call the range / failure / error conditions are checked inside Prolog with exact integers; per history the value sequences must be identical in all four executions.",
          "The generator is a per-Machine field: concurrent machines share nothing, so the thread variant of the design is not run. Statistical quality of the generator is not a property here.",
